@@ -5,7 +5,7 @@ earlier (seeded) history is updated with seeded new arguments - including ones t
 predicates and change Scan/Vmap inputs - and a seeded constraint subset; both gf.update and the
 Trace.update convenience; round trip update -> update-back with the discard.
 """
-from sim import gfi, ref, tracemachine as tm, bare
+from sim import gfi, ref, progs, tracemachine as tm, bare
 
 PROP = "C03"
 
@@ -15,6 +15,16 @@ def gen_case(rng, tier):
         # a bare Distribution / Vmap-of-Distribution used directly through the GFI (sim/bare.py)
         return bare.gen_case(rng, tier, "update")
     c = gfi.gen_model_case(rng, tier, shared_cond=None)
+    if rng.random() < 0.15:
+        # a Cond whose branches share addresses and contain a nested sub-call: constraints that name only part
+        # of the nested sub-map while the new arguments switch the branch
+        g = progs.Gen(rng, depth=1, max_blocks=2, kinds=["site", "call"], shared_cond=True)
+        ma = g.model(1, "", 2)
+        while not any(b["k"] == "call" for b in ma["blocks"]):
+            ma = g.model(1, "", 2)
+        blocks = ([{"k": "site", "a": "s", "d": rng.choice(progs.CONT_REAL_LINE), "kw": False}] if rng.random() < 0.5 else [])
+        blocks.append({"k": "cond", "a": "c", "ma": ma, "mb": g._variant(ma), "thr": round(rng.uniform(-0.3, 0.3), 2), "shared": True})
+        c = {"model": {"blocks": blocks}, "h": round(rng.uniform(-1.0, 1.0), 3)}
     paths = ref.model_paths(c["model"])
     ops = [{"op": "init", "how": rng.choice(["simulate", "generate"]), "key": rng.randint(0, 2**30),
             "rseed": rng.randint(0, 2**30), "paths": [list(p) for p in gfi.pick_subset(rng, paths)],
